@@ -4,7 +4,7 @@ C20 - no datagram, however malformed, can hang the client or exhaust memory.
 Exhaustive fault enumeration under a resource budget.  Seeds are valid
 datagrams produced by the reference side (v1 / v2c / SNMPv3 responses with 1
 and 40 bindings, a GETBULK answer, an error response, a discovery reply, a
-usmStats report, a v2c trap, a 60 KiB response).  Mutations:
+usmStats report, a v2c trap, a 60 KiB response, a response with 1500 bindings).  Mutations:
 
   bits        every single-bit flip
   trunc       every truncation
@@ -67,9 +67,10 @@ SEEDS = {
     "v3auth-report": ("v3:authNoPriv:md5", "report"),
     "v2c-trap": ("v2c", "trap"),
     "v2c-60k": ("v2c", "big"),
+    "v2c-get1500": ("v2c", "many"),
 }
 
-QUICK_SEEDS = ["v2c-get1", "v2c-error", "v3noauth-get1", "v3auth-get1", "v3priv-get1-after", "v3auth-discovery", "v2c-trap"]
+QUICK_SEEDS = ["v2c-get1", "v2c-error", "v3noauth-get1", "v3auth-get1", "v3priv-get1-after", "v3auth-discovery", "v2c-trap", "v2c-get1500"]
 
 
 class Target:
@@ -84,7 +85,7 @@ class Target:
         CLOCK.reset()
         world.reset_plugins()
         kind = self.kind
-        n = 40 if "40" in kind else 1
+        n = 40 if "40" in kind else (1500 if kind == "many" else 1)
         self.oids = [OID[:-1] + (i,) for i in range(n)]
         db = {o: ("str", b"value-%d" % i) for i, o in enumerate(self.oids)}
         if kind == "big":
@@ -183,7 +184,7 @@ class Target:
     def operation(self):
         if self.kind == "bulk":
             return ("bulkget", [], [OID[:-2]], 5)
-        if self.kind in ("get40", "get40-after"):
+        if self.kind in ("get40", "get40-after", "many"):
             return ("multiget", list(self.oids))
         if self.kind == "report":
             return ("get", self.oids[0])
@@ -350,14 +351,26 @@ def family_cases(family, seed, tier, big):
         cuts = range(0, n) if not big else sorted(set(list(range(0, 64)) + list(range(0, n, 997)) + [n - 1, n - 2]))
         for k in cuts:
             out.append((("trunc", k), lambda d, k=k: d[:k]))
+        if big:
+            out.append((("identity",), lambda d: d))
     elif family == "header":
-        for p in header_positions(seed):
-            for val in range(256):
+        positions = header_positions(seed)
+        values = range(256)
+        if big:
+            # large seeds: the first headers, a spread of later ones and the
+            # octet values that change how a header is read
+            positions = positions[:24] + positions[24:: max(1, len(positions) // 12)]
+            values = [0x00, 0x01, 0x02, 0x04, 0x05, 0x06, 0x30, 0x7F, 0x80, 0x81, 0x82, 0x84, 0x88, 0xA2, 0xFE, 0xFF]
+        for p in positions:
+            for val in values:
                 if val == seed[p]:
                     continue
                 out.append((("header", p, val), lambda d, p=p, val=val: d[:p] + bytes([val]) + d[p + 1 :]))
     elif family == "lenclaim":
-        for t in tlvs(seed):
+        ts = tlvs(seed)
+        if big and len(ts) > 60:
+            ts = ts[:30] + ts[30::211]
+        for t in ts:
             for claim in (b"\x82\xff\xff", b"\x84\x7f\xff\xff\xff", b"\x84\xff\xff\xff\xff", b"\x88" + b"\xff" * 8, b"\x80"):
                 out.append((("lenclaim", t.start, claim.hex()), lambda d, t=t, claim=claim: d[: t.start + 1] + claim + d[t.start + t.hlen :]))
     elif family == "nesting":
@@ -387,6 +400,9 @@ def shards(tier):
             elif fam == "bits":
                 for part in range(4):
                     out.append({"tier": tier, "seed": name, "family": fam, "part": part, "of": 4})
+            elif SEEDS[name][1] in ("big", "many"):
+                for part in range(8):
+                    out.append({"tier": tier, "seed": name, "family": fam, "part": part, "of": 8})
             else:
                 out.append({"tier": tier, "seed": name, "family": fam, "part": 0, "of": 1})
     for name in ("v2c-get1", "v3noauth-get1", "v2c-trap"):
@@ -403,7 +419,7 @@ def run_shard(params, acc):
         pass
     target = Target(params["seed"])
     seed = target.seed()
-    big = target.kind == "big"
+    big = target.kind in ("big", "many")
     fam = params["family"]
     small = len(seed) <= 200
     measure = fam in ("lenclaim", "nesting") or (fam == "header" and small and params["tier"] == "thorough")
@@ -450,7 +466,7 @@ def replay(case):
     target = Target(case["seed"])
     seed = target.seed()
     label = tuple(case["label"])
-    cases = dict((tuple(l), m) for l, m in family_cases(case["family"], seed, "thorough", target.kind == "big"))
+    cases = dict((tuple(l), m) for l, m in family_cases(case["family"], seed, "thorough", target.kind in ("big", "many")))
     mutate = cases.get(label)
     if mutate is None:
         return [{"kind": "replay-case-not-found", "detail": case}]
@@ -472,5 +488,5 @@ def meta(tier):
         % (names,),
         "exhaustive": True,
         "bounds": {"seeds": names},
-        "assumptions": ["budgets are CPU time (ITIMER_VIRTUAL) and traced allocations, never wall clock", "random byte strings of the quantifier are sampling and not part of the claim", "for the 60 KiB seed bit flips are omitted and truncations thinned (stated in the evidence samples)"],
+        "assumptions": ["budgets are CPU time (ITIMER_VIRTUAL) and traced allocations, never wall clock", "random byte strings of the quantifier are sampling and not part of the claim", "for the 60 KiB and the 1500-binding seeds bit flips are omitted and truncations, header positions / values and length claims are thinned (the evidence samples state the case counts)"],
     }
